@@ -6,13 +6,13 @@ import tempfile
 from harness import core
 from harness.core import coq_str, coq_list
 from harness.gen import layout as L
-from harness.impl.reader import run_reader
+from harness.impl.reader import run_reader, parse_fields
 
 IMPORTS = "From Ford Require Import Base.Str Lex.Quote Lex.Reader Lex.ReaderSpec Corr.C02."
 THEOREMS = ["C02_unterminated_tokens", "C02_unterminated_open_literal", "C02_comment_found",
             "C02_no_comment_in_literal", "C02_comment_found_after_open_literal", "C02_comment_line_in_open_literal",
             "C02_semicolon_split", "C02_file_statements", "C02_layout_invariance", "C02_joined_all_amp",
-            "C02_repaired_comment_after_literal", "C02_repaired_comment_in_literal"]
+            "C02_repaired_comment_after_literal", "C02_repaired_comment_in_literal", "C02_mask_lower_unmask"]
 
 ABCDEF = [("c", "x"), ("s", 1), ("c", "="), ("s", 1), ("l", "'", "abcdef")]
 # fixed regression inputs: layouts on which the reader used to fail (commentary after / between the lines of a
@@ -89,6 +89,113 @@ def exhaustive_small(rng, limit):
             yield lay["lines"], [pieces], lay["shapes"], lay["cuts"]
 
 
+# ---- parser-level part: literals that end up in parsed data, under the option `lower` ----
+UPPER_BODIES = ["Hello World", "Hello; World ! It's \"Me\" & Co", 'Say "HI" !! Not Doc', "MiXeD Case", "ABCdef", "A", "X;Y",
+                "It''S", "Don't SHOUT", "Tab&Amp", "UPPER lower", "  Padded  ", "Q!R", "C_Sub_MixedCase", "Ünicode"[1:],
+                "End Module", "a,B", "(Paren)", "Dbl\"\"Q", "!>Pre", "x=1;Y=2"]
+
+
+def code(text):
+    """pieces of a piece of code: blanks become 's' pieces"""
+    out = []
+    for i, w in enumerate(text.split(" ")):
+        if i:
+            out.append(("s", 1))
+        if w:
+            out.append(("c", w))
+    return out
+
+
+def gen_literal_module(rng, idx):
+    """A module whose declarations carry character literals with upper-case letters.
+    -> (logical lines as piece lists, checks) with checks = [(entity key, field, source text of the field)]"""
+    def lit():
+        q = rng.choice("'\"")
+        body = rng.choice(UPPER_BODIES)
+        return ("l", q, body), L.render_lit(q, body)
+
+    decls, subs, checks = [], [], []
+    n = rng.randint(2, 6)
+    for i in range(n):
+        kind = rng.choice(["init", "init2", "param", "strlen", "kind", "dim", "bindc", "bindf"])
+        name = f"{rng.choice(['Var', 'NAME', 'mixedCase'])}_{idx}_{i}"
+        p1, t1 = lit()
+        if kind == "init":
+            decls.append(code(f"Character(LEN=*), Parameter :: {name} =") + [("s", 1), p1])
+            checks.append((("var", name.lower()), "initial", t1))
+        elif kind == "init2":
+            p2, t2 = lit()
+            decls.append(code(f"character(len=*), parameter :: {name} =") + [("s", 1), p1, ("c", "//TRIM("), p2, ("c", ")")])
+            checks.append((("var", name.lower()), "initial", f"{t1}//TRIM({t2})"))
+        elif kind == "param":
+            decls.append(code(f"character(len=40) :: {name}"))
+            decls.append(code(f"PARAMETER ({name} =") + [("s", 1), p1, ("c", ")")])
+            checks.append((("param", name.lower()), None, t1))
+        elif kind == "strlen":
+            decls.append([("c", "character(len=LEN("), p1, ("c", "))"), ("s", 1)] + code(f":: {name}"))
+            checks.append((("var", name.lower()), "strlen", f"LEN({t1})"))
+        elif kind == "kind":
+            decls.append([("c", "character(kind=SELECTED_CHAR_KIND("), p1, ("c", "),"), ("s", 1), ("c", "len=3)"), ("s", 1)]
+                         + code(f":: {name}"))
+            checks.append((("var", name.lower()), "kind", f"SELECTED_CHAR_KIND({t1})"))
+        elif kind == "dim":
+            decls.append([("c", "integer,"), ("s", 1), ("c", "dimension(LEN("), p1, ("c", "))"), ("s", 1)] + code(f":: {name}"))
+            checks.append((("var", name.lower()), "attribs", f"dimension(LEN({t1}))"))
+        elif kind == "bindc":
+            subs.append((code(f"Subroutine {name}() BIND(C, NAME=") + [p1, ("c", ")")], code(f"end subroutine {name}")))
+            checks.append((("proc", name.lower()), None, f"C, NAME={t1}"))
+        else:
+            subs.append((code(f"function {name}() result(R) bind(C,name=") + [p1, ("c", ")")], code(f"end function {name}")))
+            checks.append((("proc", name.lower()), None, f"C,name={t1}"))
+    # group declarations into logical lines with ';'
+    logical = [code(f"Module Lit_Mod_{idx}")]
+    cur = code("implicit none")
+    for dcl in decls:
+        if rng.random() < 0.35:
+            cur = cur + rng.choice([[], [("s", 1)]]) + [(";",)] + rng.choice([[], [("s", 1)]]) + dcl
+        else:
+            logical.append(cur)
+            cur = dcl
+    logical.append(cur)
+    if subs:
+        logical.append(code("contains"))
+        for head, end in subs:
+            if rng.random() < 0.3:
+                logical.append(head + [(";",), ("s", 1)] + end)
+            else:
+                logical += [head, end]
+    logical.append(code(f"end module Lit_Mod_{idx}"))
+    return logical, checks
+
+
+def lower_outside(text):
+    """the reference for the option `lower`: code lower-cased, literals verbatim (mirrors Lex/QuoteLower.v)"""
+    out, q = [], None
+    for ch in text:
+        if q is None:
+            if ch in "'\"":
+                q = ch
+                out.append(ch)
+            else:
+                out.append(ch.lower())
+        else:
+            out.append(ch)
+            if ch == q:
+                q = None
+    return "".join(out)
+
+
+def field_of(parsed, key, field):
+    ent = parsed.get(key)
+    if ent is None:
+        return None
+    if field is None:
+        return ent
+    if field == "attribs":
+        return next((a for a in ent["attribs"] if a.lower().startswith("dimension")), None)
+    return ent[field]
+
+
 def malformed(rng):
     pool = ["x = 'abc", "&", "& y", "x = 1 &", "  & ! c", "'", "a = \"b ! c", "!! doc", "!> pre", "x = 1 !> bad",
             "!* alt", "! plain", "!| altpre", "", "#if X", "; ;", "a;;b", "x = 'it''s' // &", "'more' ! c", "&def' ! c", "  &de\" !! doc", "&d'//\"e&", "!> 'pre", "  ! it's",
@@ -153,6 +260,57 @@ def run(chk):
                                                     "lines": lines, "impl": res, "expected": want}, True)
         chk.extra["commentary_around_continued_literal_cases"] = shape_cases
         chk.extra["layout_cases"] = len(cases)
+        # ---- C. parser level: literals in parsed data are verbatim in every layout, with `lower` off and on;
+        #         the code around them is lower-cased exactly when `lower` is on
+        fcases, fterms = [], []
+        for i in range(120 if quick else 3000):
+            logical, checks = gen_literal_module(rng, i)
+            p_cut = rng.choice([0.0, 0.0, 0.03, 0.08, 0.2])
+            lines, ncuts = [], 0
+            for pieces in logical:
+                lay = L.gen_layout(rng, pieces, {"p_cut": p_cut})
+                lines += lay["lines"]
+                ncuts += lay["cuts"]
+                if rng.random() < 0.15:
+                    lines.append(rng.choice(["", "  ! Ordinary COMMENT with 'Quotes'"]))
+            text = "\n".join(lines) + "\n"
+            if not core.is_ascii(text):
+                continue
+            for lw in (False, True):
+                res = parse_fields(text, lower=lw, workdir=work)
+                chk.count(("fields", lw, text), nontrivial=True,
+                          sample={"text": text, "lower": lw} if i < 1 else None)
+                if res[0] != "ok":
+                    chk.violation("failing-input", {"what": "generated module with literal-bearing declarations is "
+                                                    "rejected by the parser", "text": text, "lower": lw, "impl": res}, True)
+                    continue
+                for key, field, src in checks:
+                    got = field_of(res[1], key, field)
+                    fcases.append((text, lw, key, field, src, got))
+                    fterms.append(f"({'true' if lw else 'false'}, {coq_str(src)}, "
+                                  f"{'Some ' + coq_str(got) if isinstance(got, str) and core.is_ascii(got) else 'None'})")
+                # entity names are code: lower-cased exactly when `lower` is on
+                for key, _f, _s in checks:
+                    want = [nm for nm in res[1]["names"] if nm.lower() == key[1]]
+                    if key[0] != "param" and (not want or (want[0] == want[0].lower()) != (lw or key[1] == want[0])):
+                        chk.violation("failing-input", {"what": "entity name not lower-cased exactly when `lower` is on",
+                                                        "text": text, "lower": lw, "name": key[1], "impl": want}, True)
+        out = chk.coq_judge(IMPORTS, "bool * str * option str", "judge_field", fterms)
+        bad = None
+        if out is not None:
+            chk.traces += len(fcases)
+            bad = sorted(out)
+        else:
+            bad = [i for i, (text, lw, key, field, src, got) in enumerate(fcases)
+                   if got != (lower_outside(src) if lw else src)]
+        for idx in bad:
+            text, lw, key, field, src, got = fcases[idx]
+            chk.disagreements += 1
+            chk.violation("failing-input", {"what": "text of a parsed entity: literal not verbatim, or code not "
+                                            "lower-cased exactly when `lower` is on", "text": text, "lower": lw,
+                                            "entity": list(key), "field": field, "source": src, "impl": got,
+                                            "expected": lower_outside(src) if lw else src}, True)
+        chk.extra["parser_field_cases"] = len(fcases)
         # ---- B. malformed / doc-marker stream: model = impl only
         mcases = []
         for _ in range(600 if quick else 20000):
@@ -175,6 +333,15 @@ def run(chk):
 
 
 def replay(chk, rep):
+    if "text" in rep:
+        res = parse_fields(rep["text"], lower=bool(rep.get("lower")))
+        print("impl:", res)
+        if "entity" in rep and res[0] == "ok":
+            got = field_of(res[1], tuple(rep["entity"]), rep.get("field"))
+            want = lower_outside(rep["source"]) if rep.get("lower") else rep["source"]
+            print("field:", repr(got), "expected:", repr(want))
+            return 0 if got == want else 1
+        return 0 if res[0] == "ok" else 1
     lines = rep["lines"]
     marks = tuple(rep.get("marks", ("!", ">", "*", "|")))
     res = run_reader(lines, marks)
